@@ -29,7 +29,7 @@ def main(path, window=45):
     if se.strip(): print('stderr:\n' + se[-3000:])
     import check_log, logparse, check
     header, ops, trailer, stray = logparse.parse(logp)
-    knobs = {k: v for k, v in check.PROFILES.get(run.get('profile'), {}).items() if k in ('zeroUtil', 'palette', 'pConsume')}
+    knobs = {k: v for k, v in check.PROFILES.get(run.get('profile'), {}).items() if k in ('zeroUtil', 'palette', 'pConsume', 'fineUtil')}
     knobs['mirror'] = 1 if check.PROFILES.get(run.get('profile'), {}).get('verboseMethods') else 0
     knobs['plans'] = 1 if check.PROFILES.get(run.get('profile'), {}).get('planDump') else 0
     knobs['taskcap'] = sj['cfg'].get('taskcap') or 2 * sj['expect']['COMPO_PRONGS']
